@@ -39,6 +39,37 @@ def rows_of(m):
     return out
 
 
+def exact_left_inverse(A):
+    """Exact inverse of a square matrix of Fractions by Gauss-Jordan; returns (N, d) with integer
+    matrix N and integer d != 0 such that N * A = d * I, or None if A is singular."""
+    n = len(A)
+    M = [list(r) + [Fraction(int(i == j)) for j in range(n)] for i, r in enumerate(A)]
+    for c in range(n):
+        piv = next((r for r in range(c, n) if M[r][c] != 0), None)
+        if piv is None:
+            return None
+        M[c], M[piv] = M[piv], M[c]
+        pv = M[c][c]
+        M[c] = [v / pv for v in M[c]]
+        for r in range(n):
+            if r != c and M[r][c] != 0:
+                fac = M[r][c]
+                M[r] = [a - fac * b for a, b in zip(M[r], M[c])]
+    B = [r[n:] for r in M]
+    d = 1
+    for r in B:
+        for v in r:
+            d = (d * v.denominator) // _gcd(d, v.denominator)
+    N = [[int(v * d) for v in r] for r in B]
+    return N, d
+
+
+def _gcd(a, b):
+    while b:
+        a, b = b, a % b
+    return a
+
+
 def make_grid(spec):
     kind = spec["kind"]
     if kind == "line":
@@ -89,6 +120,46 @@ def grid_spec(rng, tier):
     return spec, dim
 
 
+class _CaptureLocal:
+    """Record the arguments and results of RT0.massHdiv (monkey-patch, no hook in /repo)."""
+
+    def __enter__(self):
+        self.orig = pp.RT0.__dict__["massHdiv"]
+        fn = self.orig.__func__ if isinstance(self.orig, staticmethod) else self.orig
+        self.calls = []
+
+        def wrap(inv_K, c_volume, coord, sign, dim, HB):
+            A = fn(inv_K, c_volume, coord, sign, dim, HB)
+            self.calls.append((np.array(inv_K, dtype=float), float(c_volume), np.array(coord, dtype=float),
+                               np.array(sign, dtype=float), int(dim), np.array(HB, dtype=float),
+                               np.array(A, dtype=float)))
+            return A
+
+        pp.RT0.massHdiv = staticmethod(wrap)
+        return self
+
+    def __exit__(self, *a):
+        pp.RT0.massHdiv = self.orig
+
+
+def local_factors(call):
+    """A_loc = C^T N^T HB inv_K_exp N C  =  B^T W B  with  B = N C,  W = HB inv_K_exp.  N and
+    inv_K_exp are formed with the same float operations as RT0.massHdiv, then everything is exact."""
+    inv_K, vol, coord, sign, dim, HB, A = call
+    ind = np.eye(dim + 1)
+    inv_K_exp = ind[:, np.newaxis, :, np.newaxis] * inv_K[np.newaxis, :, np.newaxis, :] / vol
+    inv_K_exp = inv_K_exp.reshape((ind.shape[0] * inv_K.shape[0], ind.shape[1] * inv_K.shape[1]))
+    N = coord.flatten("F").reshape((-1, 1)) * np.ones((1, dim + 1)) - np.concatenate((dim + 1) * [coord])
+    m, n = N.shape
+    Fr = Fraction
+    B = [[Fr(float(N[k, j])) * Fr(float(sign[j])) for j in range(n)] for k in range(m)]
+    W = [[sum(Fr(float(HB[k, q])) * Fr(float(inv_K_exp[q, l])) for q in range(m)) for l in range(m)]
+         for k in range(m)]
+    return {"n": n, "m": m, "A": [[float(v) for v in r] for r in A],
+            "W": [[[str(v.numerator), str(v.denominator)] for v in r] for r in W],
+            "B": [[[str(v.numerator), str(v.denominator)] for v in r] for r in B]}
+
+
 class C18(Prop):
     id = "C18"
     props_file = "Props/C18.v"
@@ -98,39 +169,44 @@ class C18(Prop):
     design_ref = "DESIGN.md §5 C18 (certificate tie K, level P-method)"
     level_text = (
         "METHOD-LEVEL Coq theorems plus per-instance certificate validation (translation "
-        "validation), not a proof about rt0.py / mvem.py / dual_elliptic.py. Theorems (exact "
-        "rationals): (1) C18_spd_certificate: if the exact elimination checker spd_chk n M accepts "
-        "(successive Schur complements = L D L^T with positive pivots, first row = first column at "
-        "each stage) then x^T M x > 0 for every non-zero x of length n; (2) C18_gram_spd_partial: if "
-        "y^T W y > 0 for y != 0 and B x = 0 only for x = 0 then (B x)^T W (B x) > 0 for x != 0; (3) "
-        "C18_exact_if_consistent: for one face with incident cells (c, s_cf), if the mass matrix "
-        "applied to the interpolated constant flux equals sum_c s_cf (P(x_c) - P(x_f)) (consistency "
-        "with constants) and the right-hand side is -(sum_c s_cf) P(x_f), the flux equation "
-        "(M u)_f - sum_c s_cf p_c = rhs_f holds for the candidate p_c = P(x_c); (4) "
-        "C18_linear_pressures: a row of the assembled saddle-point system that vanishes on the "
-        "exact candidates of the four basis pressures x, y, z, 1 vanishes on the candidate "
-        "(u_f = -(K a).n_f, p_c = a.x_c + c0) of EVERY linear pressure, with the explicit form of "
-        "that candidate (C18_candidate_form), its uniqueness under a trivial kernel "
-        "(C18_unique_solution) and the soundness of the tolerance-carrying checker "
-        "(C18_certificate_sound). Per run Coq evaluates by vm_compute, on the REAL assembled matrix "
-        "and right-hand sides of assemble_matrix_rhs and the REAL mass matrix (Fraction(float)): "
-        "near-symmetry and exact positive definiteness of the symmetric part of the mass matrix "
-        "(full rational elimination inside Coq, n <= 18 faces), the residual of the exact candidates in "
-        "the assembled system, and the consistency hypothesis of (3); for RT0 and MVEM on 1-D, 2-D, "
-        "3-D simplex grids incl. grids embedded in 3-D. A numpy oracle solves and compares fluxes and "
-        "cell pressures and checks symmetry / eigenvalues.")
+        "validation), not a proof about rt0.py / mvem.py / dual_elliptic.py; in 1-D additionally an "
+        "executable model with execution correspondence. Theorems (exact rationals): (1) "
+        "C18_spd_certificate: if the exact elimination checker spd_chk n M accepts (successive "
+        "Schur complements = L D L^T with positive pivots) then x^T M x > 0 for every non-zero x; "
+        "C18_quad_sympart: x^T M x = x^T sym(M) x, so C18_mass_spd states positive definiteness of "
+        "the real (nearly symmetric, float) mass matrix M ITSELF from the certificate run on its "
+        "exactly computed symmetric part; (2) C18_gram_identity: x^T(B^T W B)x = (Bx)^T W (Bx) for "
+        "list matrices and C18_gram_spd: B^T W B is positive definite if W is and B is injective; "
+        "C18_local_factorisation_sound: the local RT0 mass matrices captured from RT0.massHdiv "
+        "agree (tolerance) with B^T W B for the captured factors B = N C, W = HB inv_K_exp, W "
+        "positive definite, B injective (B^T B positive definite), hence B^T W B positive definite; "
+        "(3) C18_exact_if_consistent: the flux equation of a face holds for the candidate if the "
+        "mass matrix is consistent with constants; (4) C18_linear_pressures / C18_candidate_form / "
+        "C18_certificate_sound: a row of the real assembled saddle-point system that vanishes on the "
+        "exact candidates of the basis pressures x, y, z, 1 vanishes on the candidate (u_f = "
+        "-(K a).n_f, p_c = a.x_c + c0) of EVERY linear pressure, tolerance carried through; "
+        "C18_unique_solution with C18_nonsingular_certificate: uniqueness, the trivial kernel "
+        "being established per instance by an exact left-inverse certificate N A = d I on small "
+        "systems (<= 14 unknowns) instead of assumed; (5) 1-D: C18_1d_exact and C18_1d_unique: on "
+        "the executable model of RT0 on an interval partition (any nodes with x_n != x_0, any k != "
+        "0) the discrete solution for Dirichlet data from a linear pressure is exactly the constant "
+        "flux -k a and the cell mid-point pressures, for ALL partitions. Per run Coq evaluates by "
+        "vm_compute on the REAL assembled matrix, right-hand sides, mass matrix and captured local "
+        "matrices (Fraction(float)): all certificates above, and compares the 1-D model entrywise "
+        "with the real pp.RT0 system on x-aligned 1-D grids; RT0 and MVEM, 1-D/2-D/3-D simplex grids "
+        "incl. grids embedded in 3-D. A numpy oracle solves and compares fluxes and cell pressures "
+        "and checks symmetry / eigenvalues.")
     level_note = (
-        "Not proved: anything about the Python code (local mass matrices are inputs; certificates "
-        "are checked on generated instances only); the identity x^T M x = x^T sym(M) x (positive "
-        "definiteness is established in Coq for the exactly computed symmetric part; the mass "
-        "matrix itself is symmetric only up to float rounding ~1e-17, checked with tolerance 1e-9); "
-        "C18_gram_spd_partial lacks the list-matrix identity x^T(B^T W B)x = (Bx)^T W (Bx) and the "
-        "factorisation of the real local matrices is not checked; the planned 1-D executable RT0 "
-        "model with a full exactness theorem (C18_1d_exact) was NOT built — 1-D is covered by the "
-        "same certificates as 2-D/3-D; non-singularity of the saddle-point matrix is a hypothesis "
-        "(observed by the oracle's solve); float rounding. Permeability: one constant tensor, "
-        "isotropic on 1-D / embedded grids, anisotropic SPD on planar 2-D and on 3-D grids; all "
-        "boundary faces Dirichlet.")
+        "Not proved: anything about the Python code in 2-D/3-D (matrices are inputs; certificates "
+        "are checked on generated instances only); in 1-D the model is tied to pp.RT0 by execution "
+        "on the generated x-aligned grids only (rotated 1-D grids and MVEM go through the "
+        "certificates, not the model); the local factorisation is checked for RT0 only (MVEM local "
+        "matrices are not captured) and relates the float A_loc to the exact B^T W B only up to the "
+        "tolerance; non-singularity is certified only where the exact inverse is cheap (system size "
+        "<= 14), elsewhere it remains a hypothesis observed by the oracle's solve; float rounding. "
+        "Sizes are bounded (<= 18 faces) by the cost of exact rational elimination inside Coq. "
+        "Permeability: one constant tensor, isotropic on 1-D / embedded grids, anisotropic SPD on "
+        "planar 2-D and on 3-D grids; all boundary faces Dirichlet.")
     technique = ("Coq proof of method-level theorems (Schur-complement induction for positive "
                  "definiteness, linearity over Q) + certificate checkers evaluated by vm_compute on the "
                  "real matrices (exact rational elimination inside Coq) + numpy oracle")
@@ -203,7 +279,11 @@ class C18(Prop):
         nf, nc = g.num_faces, g.num_cells
         basis = [lambda x, m=m: x[m] for m in range(3)] + [lambda x: np.ones(x.shape[1])]
         A0, bs, mass = None, [], None
-        data = self._discretize(g, perm, bc, discr)
+        with _CaptureLocal() as cap:
+            data = self._discretize(g, perm, bc, discr)
+        locals_ = [local_factors(c) for c in cap.calls] if case["method"] == "rt0" else []
+        if case["method"] == "rt0" and len(locals_) != nc:
+            raise RuntimeError("RT0.discretize did not call massHdiv once per cell")
         for pf in basis:
             A, b = self._assemble(g, data, bf, discr, pf)
             if A0 is None:
@@ -232,7 +312,27 @@ class C18(Prop):
                 "finc": rows_of(sps.csr_matrix(g.cell_faces)),
                 "rows": rows_of(ext),
                 "mass": [[float(v) for v in r] for r in np.asarray(mass.todense())],
+                "xs": ([float(v) for v in g.nodes[0]]
+                       if (g.dim == 1 and not case["grid"].get("rot") and case["method"] == "rt0") else []),
+                "inv": self._inverse(A0, nf + nc),
+                "locals": locals_,
                 "flux": [float(v) for v in flux], "pressure": [float(v) for v in pres]}
+
+    INV_MAX = 14
+
+    def _inverse(self, A0, n):
+        """Exact left inverse of the assembled matrix (as the rationals Coq sees) on small systems."""
+        if n > self.INV_MAX:
+            return None
+        dense = [[Fraction(0)] * n for _ in range(n)]
+        for i, r in enumerate(rows_of(A0)):
+            for c, v in r:
+                dense[i][c] += Fraction(v)
+        res = exact_left_inverse(dense)
+        if res is None:
+            return None
+        N, d = res
+        return {"N": [[str(v) for v in r] for r in N], "d": str(d)}
 
     def run_impl(self, case):
         full = self._run_full(case)
@@ -283,9 +383,21 @@ class C18(Prop):
     def _inst(self, full):
         vl = lambda vs: clist(vs, lambda v: clist(v, cq))
         rows = lambda rs: clist(rs, crow)
-        return ("(mk_inst {} {} {} {} {} {} {} {} {})".format(
+        ci = lambda z: f"({z} # 1)" if not str(z).startswith("-") else f"(({z}) # 1)"
+        inv = "None"
+        if full.get("inv"):
+            inv = "(Some ({}, {}))".format(clist(full["inv"]["N"], lambda r: clist(r, ci)), ci(full["inv"]["d"]))
+        return ("(mk_inst {} {} {} {} {} {} {} {} {} {} {} {})".format(
             cn(full["nf"]), cn(full["nc"]), vl(full["K"]), vl(full["normals"]), vl(full["cc"]),
-            vl(full["fc"]), rows(full["finc"]), rows(full["rows"]), vl(full["mass"])))
+            vl(full["fc"]), rows(full["finc"]), rows(full["rows"]), vl(full["mass"]),
+            clist(full["xs"], cq), inv, clist(full["locals"], self._local)))
+
+    @staticmethod
+    def _local(L):
+        fr = lambda v: (f"({v[0]} # {v[1]})" if not v[0].startswith("-") else f"(({v[0]}) # {v[1]})")
+        ml = lambda M, f: clist(M, lambda r: clist(r, f))
+        return "(mk_local {} {} {} {} {})".format(cn(L["n"]), cn(L["m"]), ml(L["A"], cq), ml(L["W"], fr),
+                                                   ml(L["B"], fr))
 
     def coq_case(self, case, res):
         return f"check {TOL} {self._inst(self._full(case))}"
@@ -297,6 +409,10 @@ class C18(Prop):
         k = f"{case['method']}-{res['dim']}d" + ("-embedded" if case["grid"].get("rot") else "")
         self._stats["kinds"][k] = self._stats["kinds"].get(k, 0) + 1
         self._stats["max_nf"] = max(self._stats["max_nf"], res["nf"])
+        full = self._full(case)
+        for key, flag in (("nonsingularity_certificates", bool(full["inv"])), ("tie_1d_model", bool(full["xs"])),
+                          ("local_factorisations", len(full["locals"]))):
+            self._stats[key] = self._stats.get(key, 0) + int(flag)
         return res["nc"] >= 2 and any(v != 0 for v in case["a"])
 
     def extra_evidence(self):
